@@ -141,3 +141,20 @@ Definition chk_C08 (c o : value) : bool :=
       end
   | _ => true
   end.
+
+(* several requests through one handler: every answer is judged on its own.
+   case ::= ( tree rootspec ((path headers)..) version (meta..) ) with one C08 meta per request *)
+Fixpoint chk_C08_each (tree : list value) (rootspec ver : bytes) (reqs metas obs : list value) : bool :=
+  match reqs, metas, obs with
+  | [], _, [] => true
+  | VL [VB path; VL hdrs] :: r, m :: ms, o :: os =>
+      chk_C08 (VL [VL tree; VB rootspec; VB path; VL hdrs; VB ver; m]) o && chk_C08_each tree rootspec ver r ms os
+  | _, _, _ => false
+  end.
+
+Definition chk_C08m (c o : value) : bool :=
+  match c, o with
+  | VL [VL tree; VB rootspec; VL reqs; VB ver; VL metas], VL obs => chk_C08_each tree rootspec ver reqs metas obs
+  | VL [VL _; VB _; VL _; VB _; VL _], _ => false
+  | _, _ => true
+  end.
